@@ -204,10 +204,12 @@ CHECKS = {
               "JokerPrior / JokerSamples; the kernel's public B and b after marginal_ln_likelihood (a decoy row evaluated first) are "
               "projected to physical units and exact rationals and compared entry by entry with the specification by TLC "
               "(GaussTrace); the value is compared with ln N(y; b, B) of those certified matrices and with TheJoker's in-memory and "
-              "cache-file entry points; off the lattice only finiteness on random valid inputs is explored."),
+              "cache-file entry points; finiteness on random valid inputs (e to 0.99, periods 0.5 d .. 1e4 d)."
+              ' Off the lattice the specification is carried by a floating-point transcription of Gauss.tla (harness/gauss_oracle.py, its own Kepler solver) that TLC certifies on every lattice configuration (monitor family H) and that is then the oracle for seeded random real-valued problems (2-27 epochs, e to 0.95, poly_trend 1..3, offsets, means, jitter, caps, random units; quick 60, thorough 1500; tolerance 1e-6 relative).'),
         design_ref="DESIGN.md section 3 C01, 2.5",
-        note=("On the lattice only: Keplerian phases 0 and pi, e in {0, 0.6, 0.8}, P in {2, 4} d; agreement 'to round-off' at arbitrary "
-              "real inputs is NOT decided. Trusted: TLC, numpy slogdet/solve for the density of a given Gaussian, twobody's Kepler solver. "
+        note=("Exhaustive on the lattice only (Keplerian phases 0 and pi, e in {0, 0.6, 0.8}, P in {2, 4} d); off the lattice agreement with "
+              "the closed form is explored on seeded random problems inside the input classes no known finding touches, not decided for "
+              "every real input. Trusted: TLC, numpy slogdet/solve for the density of a given Gaussian, twobody's Kepler solver. "
               "Multi-survey lattice cases are time-disjoint in list order (C08's open finding). Open kernel findings are classified "
               "exactly by named deviations (KF_CustomKSlot, KF_P0Unit)."),
         technique="TLA+ spec (Gauss) in exact rational arithmetic, theorems model-checked with TLC; replay of TLC-enumerated structural points; kernel state validated entry by entry by total monitor",
@@ -218,9 +220,12 @@ CHECKS = {
               "make_full_samples_inmem with a scripted generator that records (mean, cov, size) of multivariate_normal and returns "
               "sentinel draws; Ainv and Ainv.a are compared with the specification's exact precision and right-hand side (same C_s, "
               "same prior incl. the cap) by TLC; cov.Ainv = I numerically; one call per sample with size = n_linear_samples; every "
-              "sentinel in its slot and unit; nonlinear parameters copied bit-for-bit."),
+              "sentinel in its slot and unit; nonlinear parameters copied bit-for-bit. The scripted generator is interposed at the kernel "
+              "boundary (batch_get_posterior_samples), whichever generator object the library hands over. Off the lattice the (mean, "
+              "cov) handed to multivariate_normal are compared with (A rhs, A) of the TLC-certified floating-point transcription of "
+              "Gauss.tla on seeded random real-valued problems (uncapped K priors; quick 60, thorough 1500; 1e-6 relative)."),
         design_ref="DESIGN.md section 3 C03",
-        note=("On the lattice only. Not decided: that numpy's multivariate_normal samples the distribution it is given (independence of "
+        note=("Exhaustive on the lattice only; off the lattice explored on seeded random problems. Not decided: that numpy's multivariate_normal samples the distribution it is given (independence of "
               "draws). Open findings KF_NoCapOnPosterior, KF_P0Unit, KF_CustomKSlot are classified exactly."),
         technique="TLA+ spec (Gauss) exact rationals checked with TLC; replay of TLC-enumerated structural points with a scripted generator; total monitor",
     ),
@@ -230,9 +235,12 @@ CHECKS = {
               "emitted by the posterior path (sentinel linear parameters) is turned into samples.get_orbit(0) and its radial velocity "
               "at the data epochs (explicit t_ref before the first epoch, lattice M0 / omega, poly_trend 1..3, random unit assignment) "
               "must equal the specification's curve exactly (TLC); ln_unmarginalized_likelihood must be the jitter-inflated Gaussian "
-              "sum of that curve; samples.t_ref the data's; and marginal = unmarginalised + linear prior - conditional posterior."),
+              "sum of that curve; samples.t_ref the data's; and marginal = unmarginalised + linear prior - conditional posterior. Off "
+              "the lattice the identity is evaluated on seeded random real-valued problems with the row's unmarginalised likelihood "
+              "from the real code (get_orbit) and prior / posterior densities from the TLC-certified floating-point transcription of "
+              "Gauss.tla (quick 80, thorough 1500; 1e-6 relative to the largest term)."),
         design_ref="DESIGN.md section 3 C04",
-        note=("On the lattice only; twobody's KeplerOrbit is the independent orbit path. A failing identity is attributed to an open "
+        note=("Exhaustive on the lattice only; off the lattice explored on seeded random problems. twobody's KeplerOrbit is the independent orbit path. A failing identity is attributed to an open "
               "kernel finding only when the kernel's marginal or posterior state in the same trace was classified as that deviation."),
         technique="TLA+ spec (Gauss) exact rationals checked with TLC; replay of TLC-enumerated structural points; total monitor",
     ),
